@@ -79,6 +79,7 @@ def items(tier):
                 out.append(dict(kind="tables", id="tables-%dx%dx%d" % (nx, ny, nz), dim=3, n=[nx, ny, nz], ndof=b["ndof"]))
     for dim in b["shape_dims"]:
         out.append(dict(kind="shape", id="shape-%dd" % dim, dim=dim))
+        out.append(dict(kind="shape", id="shape-%dd-integer-sizes" % dim, dim=dim, int_sizes=True))
     return out
 
 
@@ -346,7 +347,11 @@ def sc_shape(V, P, cfg):
     K = Chk(P)
     dim = cfg["dim"]
     names = ["unitx", "unity", "unitz"]
-    size = [V.real(names[a], positive=True, default=[0.5, 1.25, 2.0][a]) for a in range(dim)]
+    if cfg.get("int_sizes"):
+        # element sizes given as Python integers (unitx=2): an admissible input whose array dtype is integer
+        size = [[2, 4, 8][a] for a in range(dim)]       # (powers of two: 1/volume is an exact float)
+    else:
+        size = [V.real(names[a], positive=True, default=[0.5, 1.25, 2.0][a]) for a in range(dim)]
     kw = dict(zip(names, size))
     d = DomainDefinition(2, 2 if dim >= 2 else 0, 1 if dim == 3 else 0, **kw)
     K.holds("dim", d.dim == dim, "counts")
